@@ -1,0 +1,30 @@
+"""Fault-injection points for external verification harnesses.
+
+``point(name, **ctx)`` is a no-op unless the environment variable
+JOBLIB_VERIF_HOOKS names a Python file; that file is then executed once per
+process (so that freshly spawned loky workers load it too) and must define a
+dict ``HANDLERS`` mapping point names to callables ``handler(name, **ctx)``.
+"""
+
+import os
+
+_HANDLERS = None
+
+
+def enabled():
+    return bool(os.environ.get("JOBLIB_VERIF_HOOKS"))
+
+
+def point(name, **ctx):
+    global _HANDLERS
+    path = os.environ.get("JOBLIB_VERIF_HOOKS")
+    if not path:
+        return
+    if _HANDLERS is None:
+        namespace = {"__file__": path, "__name__": "joblib_verif_handlers"}
+        with open(path) as f:
+            exec(compile(f.read(), path, "exec"), namespace)
+        _HANDLERS = namespace.get("HANDLERS", {})
+    handler = _HANDLERS.get(name)
+    if handler is not None:
+        handler(name, **ctx)
